@@ -138,9 +138,16 @@ class RayFan:
         # remove distortion
         wave_ref = self.optic.primary_wavelength
         for field in self.fields:
-            x_offset = data[f'{field}'][f'{wave_ref}']['x'][self.num_points//2]
-            y_offset = data[f'{field}'][f'{wave_ref}']['y'][self.num_points//2]
-            for wavelength in self.wavelengths:
+            if wave_ref in self.wavelengths:
+                ref = data[f'{field}'][f'{wave_ref}']
+                x_offset = ref['x'][self.num_points//2]
+                y_offset = ref['y'][self.num_points//2]
+            else:  # primary wavelength not requested: trace its chief ray
+                self.optic.trace_generic(Hx=field[0], Hy=field[1],
+                                         Px=0.0, Py=0.0, wavelength=wave_ref)
+                x_offset = self.optic.surface_group.x[-1, 0]
+                y_offset = self.optic.surface_group.y[-1, 0]
+            for wavelength in dict.fromkeys(self.wavelengths):
                 data[f'{field}'][f'{wavelength}']['x'] -= x_offset
                 data[f'{field}'][f'{wavelength}']['y'] -= y_offset
 
